@@ -34,7 +34,7 @@ Ordered(s) == IF Pinned THEN FALSE ELSE s # "set_display"
 
 \* the program pool: abstract families and the sites their output passes through
 Families == {"kwargs", "orchain", "proto", "setlit", "litunion", "dictkeys", "attrs", "typeddict", "overload",
-             "generic", "narrow", "scopes"}
+             "generic", "narrow", "scopes", "gentwin"}
 Exercises(p) ==
     CASE p = "kwargs" -> {"extra_kwargs"}
       [] p = "orchain" -> {"or_constraint"}
